@@ -265,6 +265,9 @@ class Loops:
                 pass
             except BreakEx:
                 raise Unsupported('break in loop')
+            hook = getattr(ex.task.contract, 'on_iteration', None)
+            if hook is not None:
+                hook(ex, key, i, desc)
             self.check_invs(ex, key, env, i + 1, 'preserved', extra_inv)
             raise PathEnd()
         else:
